@@ -34,6 +34,7 @@ Soundness (every case is an importable package inside the property's domain) is 
   sub-module names, member names, alias names and class-body names come from disjoint pools, so a sub-module never collides
   with a member (docs: best practices) and a class-body name never shadows a global used in a base-class expression;
 * sibling module names never differ only by leading underscores (the inspector documents treating those as one module);
+  pairs differing by a trailing underscore (`a` / `a_`, `_u` / `u_`) are generated: they are distinct modules for both agents;
 * base classes are classes of this package reached through names bound *earlier* in the same module; the C3 merge is
   computed at generation time so `class C(B1, B2)` always has a consistent MRO;
 * typing bases: `Generic[T]` (last base) and `Protocol` / `Protocol[T]` (sole base, protocols only inherit protocols); a base
@@ -60,6 +61,10 @@ SUBPKG_NAMES = ["sub", "_sp"]
 SUBMOD_NAMES = ["c", "d"]
 # per nesting depth of the containing package: plain-module names, sub-package names, max plain modules, chance of a sub-package
 LEVEL_MODS = [MOD_NAMES, SUBMOD_NAMES, ["e", "k"], ["leaf"]]
+# sibling modules whose names differ only by a TRAILING underscore (or leading on one / trailing on the other) are distinct
+# modules for both agents: the inspector's documented "same module" rule only ignores LEADING underscores, so every pair
+# below stays distinct after lstrip("_")
+LEVEL_TWINS = [[("a", "a_"), ("_u", "u_"), ("b", "b_")], [("c", "c_"), ("_d", "d_")], [("e", "e_"), ("_k", "k_")], [("leaf", "leaf_")]]
 LEVEL_PKGS = [SUBPKG_NAMES, ["deep", "_dp"], ["core"]]
 LEVEL_MAX_PLAIN = [2, 2, 1, 1]
 LEVEL_SUBPKG_PCT = [40, 55, 40]
@@ -601,7 +606,14 @@ class _Builder:
         a name from a module that is still executing. Nesting goes down to pkg/sub/deep/core (depth 3)."""
         d = self.draw
         n_plain = d(st.integers(0, LEVEL_MAX_PLAIN[depth]))
-        units: list[list[dict]] = [[{"path": [*path, n], "init": False}] for n in list(d(st.permutations(LEVEL_MODS[depth])))[:n_plain]]
+        names = list(d(st.permutations(LEVEL_MODS[depth])))[:n_plain]
+        if self.chance(30):
+            # an underscore pair such as schema.py / schema_.py (never a / _a: the inspector treats those as one module)
+            pair = list(self.pick(LEVEL_TWINS[depth]))
+            names = [n for n in names if n.lstrip("_") not in {p.lstrip("_") for p in pair}][: max(0, LEVEL_MAX_PLAIN[depth] - 2)] + pair
+            names = list(d(st.permutations(names)))
+        assert len({n.lstrip("_") for n in names}) == len(names)
+        units: list[list[dict]] = [[{"path": [*path, n], "init": False}] for n in names]
         units.append([{"path": list(path), "init": True}])
         if depth < 3 and self.chance(LEVEL_SUBPKG_PCT[depth]):
             units.append(self.package_block([*path, self.pick(LEVEL_PKGS[depth])], depth + 1))
@@ -821,6 +833,14 @@ def describe(case: dict):
     cls: set[str] = set()
     mods = case["mods"]
     cls.add(f"layout:{case['layout']}")
+    plain_paths = {tuple(m["path"]) for m in mods if m["path"]}
+    twins = {p for p in plain_paths for q in plain_paths if p != q and p[:-1] == q[:-1] and p[-1].strip("_") == q[-1].strip("_")}
+    if twins:
+        cls.add("modules:trailing-underscore-pair")
+        if any(it["t"] in ("from", "star", "frommod", "import") and tuple(m["path"]) in twins and tuple(mods[it["mod"]]["path"]) in twins
+               and tuple(m["path"])[:-1] == tuple(mods[it["mod"]]["path"])[:-1] and m["path"][-1].strip("_") == mods[it["mod"]]["path"][-1].strip("_")
+               for m in mods for it in m["body"]):
+            cls.add("modules:import-between-underscore-pair")
     cls.add(f"modules:{len(mods)}")
     if any(m["init"] and m["path"] for m in mods):
         cls.add("subpackage")
